@@ -280,6 +280,12 @@ def run_C08(tier, seed):
         #  rules on the transcript operations apply even where the arithmetic on the final check is skipped)
         dupx = lambda s: any(m.get("bseed") == 7 and m["mut"]["kind"] == "scalar" for m in s["sc"]["members"]) and any(m.get("bseed") == 7 and m["mut"]["kind"] == "none" for m in s["sc"]["members"])
         sc, _ = stages.pick_scenarios("batch", tier, seed, lambda s: (reaches_msm(s) or dupx(s)) and nm_of(s) <= 16, 14 if q else 150, prop="C08", must=dupx, must_count=3)
+        # ... preceded, in the same process and thread, by batches that are refused half-way (a later member's point is the identity
+        # or does not decode): what such a call leaves behind must not enter the weights of the next one
+        ab, _ = stages.pick_scenarios("batch", tier, seed, lambda s: s["expect"]["prove"] == "ok" and s["sc"]["skew"] == [0, 0, 0] and nm_of(s) <= 16 and len(s["sc"]["members"]) >= 2
+                                      and any(x >= 1 and m["mut"]["kind"] == "point" and m["mut"]["how"] in ("identity", "undecodable") for x, m in enumerate(s["sc"]["members"]))
+                                      and not cache_edit(s), 3 if q else 20, prop="C08")
+        sc = ab + sc
         sc2, _ = stages.pick_scenarios("recover", tier, seed, lambda s: verifies(s) and len(s["sc"]["members"]) >= 2 and s["sc"]["mode"] != "RecoverOnly" and s["sc"]["members"][0]["t"] == 6, 8 if q else 60, prop="C08")
         return stages.trace_stage("C08", "weights", sc + sc2, seed, module="TraceVerify", calls="verify")
 
